@@ -389,21 +389,32 @@ def r3(ctx):
     f = ctx.func("sql/coercions.py::InElementImpl._post_coercion")
     p_operator = "operator"
     ctx.require(p_operator in f.params, "InElementImpl._post_coercion has no `operator` parameter")
-    stores = [n for n in walk_local(f.node) if isinstance(n, ast.Assign) and len(n.targets) == 1
-              and isinstance(n.targets[0], ast.Attribute) and n.targets[0].attr in ("expand_op", "expanding")]
-    by = {n.targets[0].attr: n for n in stores}
+
+    def stamps(fi, opname, depth=0):
+        """[(attribute, value expression, name of the IN operator in that scope)] for the stores of expanding / expand_op in
+        the hook and in the helpers of sql/coercions.py it hands the element to."""
+        out = [(n.targets[0].attr, n.value, opname) for n in walk_local(fi.node) if isinstance(n, ast.Assign) and len(n.targets) == 1
+               and isinstance(n.targets[0], ast.Attribute) and n.targets[0].attr in ("expand_op", "expanding")]
+        if depth < 2:
+            for c in calls_in(fi.node):
+                for t in _r7_callees(ix, fi.module, fi, c):
+                    if t.node is fi.node or t.name in COERCION_HOOKS:
+                        continue
+                    b = bind_call_args(c, [q for q in t.params if q not in ("self", "cls")]) or {}
+                    op2 = next((q for q, a in b.items() if isinstance(a, ast.Name) and a.id == opname), None)
+                    ctx.functions_analysed.add(t.key)
+                    out.extend(stamps(t, op2, depth + 1))
+        return out
+
+    by = {}
+    for attr, val, opname in stamps(f, p_operator):
+        by.setdefault(attr, []).append((val, opname))
     problems = []
-    if "expand_op" not in by or not (isinstance(by["expand_op"].value, ast.Name) and by["expand_op"].value.id == p_operator):
+    if not by.get("expand_op") or not all(isinstance(v, ast.Name) and v.id == opn for v, opn in by["expand_op"]):
         problems.append("expand_op is not set to the IN operator on the coerced bind parameter")
-    if "expanding" not in by or unparse(by["expanding"].value) != "True":
+    if not by.get("expanding") or not all(unparse(v) == "True" for v, _ in by["expanding"]):
         problems.append("expanding is not set")
-    for n in stores:
-        tgt = n.targets[0].value
-        fresh = any(isinstance(a, ast.Assign) and isinstance(a.targets[0], ast.Name) and isinstance(tgt, ast.Name)
-                    and a.targets[0].id == tgt.id and isinstance(a.value, ast.Call)
-                    and (dotted(a.value.func) or "").endswith("._clone") for a in walk_local(f.node))
-        if not fresh:
-            problems.append(f"`{unparse(n)}` mutates a parameter that was not cloned first")
+    # (that the stamped object is a copy and not the caller's parameter is C07-R7, on the CFG)
     ctx.check(not problems, f.key, "; ".join(problems), "clone.expanding = True; clone.expand_op = operator", f.loc)
 
     # every place that asks for the empty-set rendering passes the parameter's own expand_op: direct calls of
@@ -605,7 +616,13 @@ def _helper_follow(ctx, f, depth=0):
             return None
         ctx.functions_analysed.add(tgt.key)
         al_h, problems_h = _aliases(ctx, tgt, got[0], depth + 1)
-        kinds = [_preserving(r.value, al_h, _helper_follow(ctx, tgt, depth + 1)) if r.value is not None else None
+        follow_h = _helper_follow(ctx, tgt, depth + 1)
+        dropped_h = set()
+        for _ in range(3):
+            for n, v, st in _all_name_stores(tgt.node):
+                if v is not None and n not in al_h and _preserving(v, al_h, follow_h, dropped_h) == "drops":
+                    dropped_h.add(n)
+        kinds = [_preserving(r.value, al_h, follow_h, dropped_h) if r.value is not None else None
                  for r in returns_of(tgt.node)]
         if problems_h or "drops" in kinds:
             return "drops"
@@ -674,15 +691,24 @@ def _is_empty_display(v):
     return isinstance(v, (ast.List, ast.Tuple)) and not v.elts
 
 
-def _preserving(v, al, follow=None):
+DEDUP_CALLS = {"dict.fromkeys", "OrderedDict.fromkeys", "collections.OrderedDict.fromkeys", "util.unique_list", "unique_list",
+               "util.OrderedSet", "OrderedSet"}
+
+
+def _preserving(v, al, follow=None, dropped=()):
     """'same' if expression `v` holds exactly the elements of an alias, 'drops' if it can hold fewer,
-    None if not understood.  `follow(call)` -> 'same' / 'drops' / None for a call of a helper that is handed the list."""
+    None if not understood.  `follow(call)` -> 'same' / 'drops' / None for a call of a helper that is handed the list;
+    `dropped`: names already known to hold a copy that can have fewer elements."""
     if isinstance(v, ast.Name) and v.id in al:
         return "same"
+    if isinstance(v, ast.Name) and v.id in dropped:
+        return "drops"
+    if isinstance(v, ast.Call) and (call_name(v) or "") in DEDUP_CALLS and any(_mentions(a, al) for a in v.args):
+        return "drops"
     if isinstance(v, ast.BoolOp):
         # `<filtered copy> or values`, `values or []`, `a and b`: whichever operand is delivered, it has to hold the
         # elements of the list; one that can hold fewer makes the whole expression one that can hold fewer
-        kinds = [_preserving(x, al, follow) for x in v.values
+        kinds = [_preserving(x, al, follow, dropped) for x in v.values
                  if not (isinstance(v.op, ast.Or) and _is_empty_display(x))]
         if "drops" in kinds:
             return "drops"
@@ -695,7 +721,7 @@ def _preserving(v, al, follow=None):
             return r
     if isinstance(v, ast.Call) and isinstance(v.func, ast.Name):
         if v.func.id in PRESERVING_CALLS and len(v.args) == 1:
-            return _preserving(v.args[0], al, follow)
+            return _preserving(v.args[0], al, follow, dropped)
         if v.func.id in DROPPING_CALLS and any(_mentions(a, al) for a in v.args):
             return "drops"
     if isinstance(v, ast.Subscript) and isinstance(v.value, ast.Name) and v.value.id in al and isinstance(v.slice, ast.Slice):
@@ -708,7 +734,7 @@ def _preserving(v, al, follow=None):
             if isinstance(v.elt, ast.Name) and isinstance(g.target, ast.Name) and v.elt.id == g.target.id:
                 return "same"
     if isinstance(v, ast.IfExp):
-        a, b = _preserving(v.body, al, follow), _preserving(v.orelse, al, follow)
+        a, b = _preserving(v.body, al, follow, dropped), _preserving(v.orelse, al, follow, dropped)
         if "drops" in (a, b):
             return "drops"
         if a == b == "same":
@@ -806,7 +832,28 @@ def r4(ctx):
         # (i) nothing drops elements
         gens, derived, elem_vars = _element_generators(f.node, al)
         flagged = " ".join(problems)
+        # a filtered walk over the list matters when what it builds can reach the result (the returned pair, through any
+        # chain of locals, or a nested helper); one that only counts / logs does not render anything
+        feeding = {x.id for r in returns_of(f.node) if r.value is not None for x in ast.walk(r.value) if isinstance(x, ast.Name)}
+        grew = True
+        while grew:
+            grew = False
+            for n, v, st in _all_name_stores(f.node):
+                if v is not None and n in feeding:
+                    more = {x.id for x in ast.walk(v) if isinstance(x, ast.Name)} - feeding
+                    if more:
+                        feeding |= more
+                        grew = True
+        aside = set()
+        for st in walk_local(f.node):
+            if isinstance(st, (ast.Assign, ast.AnnAssign)) and getattr(st, "value", None) is not None:
+                tg = st.targets if isinstance(st, ast.Assign) else [st.target]
+                names = [x for t in tg for x in ast.walk(t) if isinstance(x, ast.Name)]
+                if names and all(isinstance(t, (ast.Name, ast.Tuple, ast.List)) for t in tg) and not ({x.id for x in names} & feeding):
+                    aside |= {id(g) for c in ast.walk(st.value) if isinstance(c, COMPS) for g in c.generators}
         for g, what in gens:
+            if id(g) in aside:
+                continue
             if g.ifs and f"for {unparse(g.target)} in {unparse(g.iter)} if" not in flagged:
                 problems.append(f"a comprehension over {what} skips elements: `for {unparse(g.target)} in "
                                 f"{unparse(g.iter)} if {' if '.join(unparse(i) for i in g.ifs)}`")
@@ -1199,7 +1246,7 @@ def _r7_callees(ix, mod, f, call):
     return []
 
 
-@R.rule("C07-R7", floor=40, template="T-FRESH",
+@R.rule("C07-R7", floor=41, template="T-FRESH",
         desc="no function of sql/coercions.py stores an attribute on / mutates in place an object that is not fresh on every "
              "path reaching the store: the caller's element (a bindparam given to in_() / not_in(), a column, a statement) "
              "is stamped only after `x = x._clone(...)`; helpers are judged with the states their in-module callers pass")
@@ -1288,7 +1335,9 @@ def r7(ctx):
             if st == F:
                 okd.append(d)
             elif st == S:
-                how = "a parameter / shared object" if root in f.params else "not a fresh copy on every path"
+                rebound = any(n == root for n, v, st_ in _all_name_stores(f.node))
+                how = ("the caller's object on at least one path: it is re-bound to a copy on some paths only" if rebound
+                       else "a parameter / shared object, never copied")
                 bad.append(f"`{txt}` ({'store on' if kind == 'attr-store' else 'in-place mutation of'} `{root}`, {how}"
                            f"{'' if external(f) else '; as passed by ' + ', '.join(sorted({c_.qualname for c_, _ in sites[f.key]}))})")
             else:
@@ -1738,3 +1787,102 @@ R.mutant("r4-empty-set-helper-under-extra-condition", COMP,
          chain(sub(_LIT_DEF, _ES_HELPER % "parameter.expand_op" + _LIT_DEF),
                sub("        if not values:\n            to_update = []\n            if typ_dialect_impl._is_tuple_type:\n",
                    "        if not values or values == [None]:\n            to_update = []\n            if typ_dialect_impl._is_tuple_type:\n")), "C07-R4")
+
+# ---- round 2 (str2-d): R7 (seed C07_3 and its class), R4 additions (seed C07_4), R8
+_PC = ("        elif isinstance(element, elements.BindParameter):\n            element = element._clone(maintain_key=True)\n"
+       "            element.expanding = True\n            element.expand_op = operator\n\n            return element\n")
+R.mutant("r7-seed3-clone-only-when-not-yet-expanding", COERC,
+         sub(_PC, "        elif isinstance(element, elements.BindParameter):\n            if not element.expanding:\n"
+                  "                element = element._clone(maintain_key=True)\n                element.expanding = True\n"
+                  "            element.expand_op = operator\n\n            return element\n"), "C07-R7")
+R.mutant("r7-no-clone-at-all", COERC,
+         sub(_PC, "        elif isinstance(element, elements.BindParameter):\n            element.expanding = True\n"
+                  "            element.expand_op = operator\n\n            return element\n"), "C07-R7")
+R.mutant("r7-stamp-through-alias-before-clone", COERC,
+         sub(_PC, "        elif isinstance(element, elements.BindParameter):\n            given = element\n"
+                  "            element = element._clone(maintain_key=True)\n            given.expanding = True\n"
+                  "            element.expanding = True\n            element.expand_op = operator\n\n            return element\n"), "C07-R7")
+R.mutant("r7-helper-stamps-callers-element", COERC,
+         sub(_PC, "        elif isinstance(element, elements.BindParameter):\n            self._mark_expanding(element, operator)\n"
+                  "            return element._clone(maintain_key=True)\n"
+                  "        elif isinstance(element, selectable.Values):\n            return element.scalar_values()\n        else:\n            return element\n\n"
+                  "    def _mark_expanding(self, param, in_operator):\n        param.expanding = True\n        param.expand_op = in_operator\n\n"
+                  "    def _unused_tail(self, element):\n        if False:\n            return element\n"), "C07-R7")
+R.mutant("r7-literal-coercion-of-another-role-sets-flag-on-argument", COERC,
+         sub("    def _post_coercion(self, resolved, *, original_element=None, **kw):\n",
+             "    def _post_coercion(self, resolved, *, original_element=None, **kw):\n        resolved._is_on_clause = True\n"), "C07-R7")
+R.mutant("benign-r7-clone-under-inverted-early-return", COERC,
+         sub(_PC, "        elif not isinstance(element, elements.BindParameter):\n            if isinstance(element, selectable.Values):\n"
+                  "                return element.scalar_values()\n            return element\n"
+                  "        expanding_copy = element._clone(maintain_key=True)\n        expanding_copy.expand_op = operator\n"
+                  "        expanding_copy.expanding = True\n        return expanding_copy\n"
+                  "        if False:\n            return element\n"), None)
+R.mutant("benign-r7-helper-returns-stamped-clone", COERC,
+         sub(_PC, "        elif isinstance(element, elements.BindParameter):\n            return self._as_expanding(element, operator)\n"
+                  "        elif isinstance(element, selectable.Values):\n            return element.scalar_values()\n        else:\n            return element\n\n"
+                  "    def _as_expanding(self, param, in_operator):\n        param = param._clone(maintain_key=True)\n"
+                  "        param.expanding = True\n        param.expand_op = in_operator\n        return param\n\n"
+                  "    def _unused_tail(self, element):\n        if False:\n            return element\n"), None)
+R.mutant("benign-r7-helper-stamps-the-callers-fresh-clone", COERC,
+         sub(_PC, "        elif isinstance(element, elements.BindParameter):\n            copied = element._clone(maintain_key=True)\n"
+                  "            self._mark_expanding(copied, operator)\n            return copied\n"
+                  "        elif isinstance(element, selectable.Values):\n            return element.scalar_values()\n        else:\n            return element\n\n"
+                  "    def _mark_expanding(self, param, in_operator):\n        param.expanding = True\n        param.expand_op = in_operator\n\n"
+                  "    def _unused_tail(self, element):\n        if False:\n            return element\n"), None)
+R.mutant("r3-helper-stamps-wrong-operator", COERC,
+         sub(_PC, "        elif isinstance(element, elements.BindParameter):\n            copied = element._clone(maintain_key=True)\n"
+                  "            self._mark_expanding(copied, operator)\n            return copied\n"
+                  "        elif isinstance(element, selectable.Values):\n            return element.scalar_values()\n        else:\n            return element\n\n"
+                  "    def _mark_expanding(self, param, in_operator):\n        param.expanding = True\n        param.expand_op = operators.in_op\n\n"
+                  "    def _unused_tail(self, element):\n        if False:\n            return element\n"), "C07-R3")
+# R4: the bound path (seed C07_4) and the helper / boolean spellings of a filter
+_BOUND_SCALAR = ("        else:\n            to_update = [\n                (\"%s_%s\" % (name, i), value)\n"
+                 "                for i, value in enumerate(values, 1)\n            ]\n")
+R.mutant("r4-seed4-bound-path-filters-none-for-in-or-keeps", COMP,
+         sub(_BOUND_SCALAR, "        else:\n            if parameter.expand_op is operators.in_op:\n"
+                            "                values = [\n                    value for value in values if value is not None\n                ] or values\n"
+                            "            to_update = [\n                (\"%s_%s\" % (name, i), value)\n"
+                            "                for i, value in enumerate(values, 1)\n            ]\n"), "C07-R4")
+_NN_HELPER = ("    def _without_nulls(self, items):\n        kept = [item for item in items if item is not None]\n        return kept or items\n\n")
+R.mutant("r4-bound-path-filters-through-helper", COMP,
+         chain(sub(_LIT_DEF, _NN_HELPER + _LIT_DEF),
+               sub(_BOUND_SCALAR, "        else:\n            values = self._without_nulls(values)\n            to_update = [\n"
+                                  "                (\"%s_%s\" % (name, i), value)\n                for i, value in enumerate(values, 1)\n            ]\n")), "C07-R4")
+R.mutant("r4-bound-path-dedups-in-helper", COMP,
+         chain(sub(_LIT_DEF, "    def _distinct(self, items):\n        return list(dict.fromkeys(items))\n\n" + _LIT_DEF),
+               sub(_BOUND_SCALAR, "        else:\n            values = self._distinct(values)\n            to_update = [\n"
+                                  "                (\"%s_%s\" % (name, i), value)\n                for i, value in enumerate(values, 1)\n            ]\n")), "C07-R4")
+R.mutant("benign-r4-list-normalised-by-helper-and-or-empty", COMP,
+         chain(sub(_LIT_DEF, "    def _as_list(self, items):\n        items = list(items)\n        return items\n\n" + _LIT_DEF),
+               sub(_BOUND_SCALAR, "        else:\n            values = self._as_list(values) or []\n            to_update = [\n"
+                                  "                (\"%s_%s\" % (name, i), value)\n                for i, value in enumerate(values, 1)\n            ]\n")), None)
+R.mutant("benign-r4-bound-scalar-arm-loop-variable-renamed-and-guard-on-expand-op-logging", COMP,
+         sub(_BOUND_SCALAR, "        else:\n            if parameter.expand_op is operators.in_op:\n                _n_null = sum(1 for v_ in values if v_ is None)\n"
+                            "            to_update = [\n                (\"%s_%s\" % (name, pos), item)\n"
+                            "                for pos, item in enumerate(values, 1)\n            ]\n"), None)
+# R8: the consumer of the rendered list
+_PE = ("            if m.group(2):\n                tok = m.group(2).split(\"~~\")\n                be_left, be_right = tok[1], tok[3]\n"
+       "                expr = \", \".join(\n                    \"%s%s%s\" % (be_left, exp, be_right)\n"
+       "                    for exp in expr.split(\", \")\n                )\n            return expr\n")
+R.mutant("r8-preview-fix-items-come-from-the-renderer", COMP,
+         chain(sub("                    to_update_sets[escaped_name] = to_update\n",
+                   "                    to_update_sets[escaped_name] = to_update\n                    expanded_values[escaped_name] = (parameter, values)\n"),
+               sub("        replacement_expressions: Dict[str, Any] = {}\n",
+                   "        replacement_expressions: Dict[str, Any] = {}\n        expanded_values: Dict[str, Any] = {}\n"),
+               sub(_PE, "            if m.group(2):\n                parameter, values = expanded_values[key]\n"
+                        "                expr = self._render_expanded_with_bind_expression(\n                    key, parameter, values, m.group(0)\n                )\n"
+                        "            return expr\n")), None)
+R.mutant("r8-compile-time-path-also-splits", COMP,
+         sub("                bind_expression_template=bind_expression_template,\n            )\n            return replacement_expr\n",
+             "            )\n            if bind_expression_template:\n                return \", \".join(\n"
+             "                    bind_expression_template.replace(\"REPL\", item)\n                    for item in replacement_expr.split(\", \")\n                )\n"
+             "            return replacement_expr\n"), "C07-R8")
+R.mutant("r8-compile-time-path-partitions-an-alias-of-the-text", COMP,
+         sub("                bind_expression_template=bind_expression_template,\n            )\n            return replacement_expr\n",
+             "                bind_expression_template=bind_expression_template,\n            )\n            rendered = replacement_expr\n"
+             "            if self.dialect.max_identifier_length < 0:\n                return rendered.partition(\", \")[0]\n"
+             "            return rendered\n"), "C07-R8")
+R.mutant("benign-r8-template-token-split-and-renamed-locals", COMP,
+         sub("            key = m.group(1)\n            expr = replacement_expressions[key]\n",
+             "            key = m.group(1)\n            rendered_list = replacement_expressions[key]\n            expr = rendered_list\n"
+             "            _marker = m.group(0).split(\"~~\")[0]\n"), None)
